@@ -1362,4 +1362,91 @@ Proof.
   - apply (tot_write_mono _ s7 s8); [apply E8|exact W8|apply E8|exact T7w].
 Qed.
 
+(* ======================================================================== *)
+(* Part F : steps, traces, the fresh tree                                    *)
+(* stated preconditions of the primitives covered so far; the others are not covered (False) *)
+Definition prim_pre (p : prim) (s : tstate) : Prop :=
+  match p with
+  | PAddNode nd => good_node nd
+  | PRemoveNode nd => length nd = 1 \/ (In nd (nkeys (children s)) /\ nget nd (info s) <> None)
+  | PPair x y lg c z => pair_pre s x y lg c z
+  | PGet GLegs nd | PGet GInvolved nd | PGet GSize nd => good_node nd
+  | PGet GFlops nd => good_node nd /\ flops_pre s nd
+  | PCoresClear | PCoreAdd _ => True
+  | _ => False
+  end.
+
+Theorem step_preserves_InvC p s : InvC s -> prim_pre p s -> InvC (step n p s).
+Proof.
+  intros HI Hp. destruct p as [nd|nd|x y lg c z|g nd| | | | | | | | | | |k]; cbn [prim_pre] in Hp; try contradiction; cbn [step].
+  - apply add_node_inv; assumption.
+  - destruct Hp as [E1|[Hin Hk]]; [apply remove_node_leaf_inv|apply remove_node_internal_inv]; assumption.
+  - apply contract_pair_inv; assumption.
+  - destruct HI as [HS HT]. destruct g; try contradiction; cbn [do_get].
+    + destruct (g_legs_inv s nd HS Hp) as (A & B & _). split; [exact A|apply (totals_Ext s), HT; exact B].
+    + destruct (g_involved_inv s nd HS Hp) as (A & B & _). split; [exact A|apply (totals_Ext s), HT; exact B].
+    + destruct (g_size_inv s nd HS Hp) as [(A & B & _)|E].
+      * split; [exact A|apply (totals_Ext s), HT; exact B].
+      * (* the node has no info entry: only the legs getter ran, then the write raised *)
+        unfold g_size. destruct (rd i_size s nd) eqn:Er; [split; assumption|].
+        destruct (g_legs_inv s nd HS Hp) as (A & B & _). destruct (g_legs n s nd) as [s1 l]. cbn [fst snd] in *.
+        destruct (InvC_upd nd (w_size (Some (size_of (szd n) (lkeys l)))) s1 A) as [A' B'].
+        { intros i Hi. exfalso. assert (Hk : nget nd (info s1) <> None) by congruence.
+          apply nget_in_keys in Hk. destruct B as (_&_&_&_&_&_&_&_&_&_&_&Ek&_). unfold nkeys in *. rewrite Ek in Hk.
+          apply nget_in_keys in Hk. congruence. }
+        split; [exact A'|apply (totals_Ext s), HT; eapply Ext_trans; eassumption].
+    + destruct Hp as [HG Hpre]. destruct (g_flops_inv s nd HS HG Hpre) as (A & B & _).
+      split; [exact A|apply (totals_Ext s), HT; exact B].
+  - apply (InvC_same s); [unfold same_cost_fields; repeat split; reflexivity|exact HI].
+  - destruct (memb k (cores s)); [exact HI|]. apply (InvC_same s); [unfold same_cost_fields; repeat split; reflexivity|exact HI].
+Qed.
+
+Theorem run_preserves_InvC tr : forall s, InvC s -> pre_trace n prim_pre tr s -> InvC (run n tr s).
+Proof. intros s HI Hp. apply (run_good n InvC prim_pre step_preserves_InvC tr s HI Hp). Qed.
+
+(* ContractionTree.__init__ *)
+Lemma multiplicity_nil : multiplicity n [] = 1%Z.
+Proof. reflexivity. Qed.
+Lemma NoDup_app_intro' {A} (a b : list A) : NoDup a -> NoDup b -> (forall x, In x a -> ~ In x b) -> NoDup (a ++ b).
+Proof.
+  induction a as [|x a IH]; cbn; intros Ha Hb Hd; [exact Hb|].
+  inversion Ha as [|? ? Hnin Ha']; subst. constructor.
+  - rewrite in_app_iff. intros [H|H]; [contradiction|]. apply (Hd x); [left; reflexivity|exact H].
+  - apply IH; [exact Ha'|exact Hb|]. intros y Hy. apply Hd. right; exact Hy.
+Qed.
+Lemma nget_leaves_root k c : forall m, nget k (map (fun i => ([i], noinfo)) (seq m c) ++ [(root n, noinfo)]) <> None ->
+  (exists i, k = [i] /\ m <= i < m + c) \/ k = root n.
+Proof.
+  induction c as [|c IH]; intros m; cbn [seq map app nget].
+  - destruct (node_eqb (root n) k) eqn:E; [apply node_eqb_eq in E; auto|congruence].
+  - destruct (node_eqb [m] k) eqn:E.
+    + apply node_eqb_eq in E. intros _. left. exists m. split; [auto|lia].
+    + intros H. destruct (IH (S m) H) as [(i & -> & Hi)|Hr]; [left; exists i; split; [reflexivity|lia]|right; exact Hr].
+Qed.
+Theorem init_state_InvC : InvC (init_state n).
+Proof.
+  assert (Hroot : good_node (root n)).
+  { unfold root. split; [split; [apply seq_NoDup|intros k Hk; apply in_seq in Hk; lia]|]. destruct N; [lia|discriminate]. }
+  split; [|unfold totals_inv; cbn; repeat split; discriminate].
+  unfold InvS, init_state. cbn [children info sliced mult]. split; [|split; [|split; [|reflexivity]]].
+  - split; [constructor|]. intros p l r H. discriminate.
+  - unfold nkeys. rewrite map_app, map_map. cbn [map fst].
+    apply NoDup_app_intro'.
+    + apply FinFun.Injective_map_NoDup; [intros a b H; congruence|apply seq_NoDup].
+    + repeat constructor. cbn. tauto.
+    + intros k Hk [<-|[]]. apply in_map_iff in Hk. destruct Hk as (i & Hi & _).
+      unfold root in Hi. assert (length [i] = length (seq 0 N)) by congruence. cbn in H. rewrite seq_length in H. lia.
+  - intros nd i Hi. assert (Hk : nget nd (map (fun i => ([i], noinfo)) (seq 0 N) ++ [(root n, noinfo)]) <> None) by congruence.
+    assert (Ei : i = noinfo).
+    { apply nget_In in Hi. apply in_app_iff in Hi. destruct Hi as [Hi|[Hi|[]]]; [|congruence].
+      apply in_map_iff in Hi. destruct Hi as (j & Hj & _). congruence. }
+    subst i. split; [|apply node_inv_noinfo].
+    destruct (nget_leaves_root nd N 0 Hk) as [(j & -> & Hj)| -> ]; [|exact Hroot].
+    split; [|discriminate]. split; [repeat constructor; cbn; tauto|]. intros k [<-|[]]. lia.
+Qed.
+
+(* totals_eq_rebuild, partial: over traces of the primitives covered by prim_pre *)
+Theorem trace_from_fresh_InvC tr : pre_trace n prim_pre tr (init_state n) -> InvC (run n tr (init_state n)).
+Proof. apply run_preserves_InvC, init_state_InvC. Qed.
+
 End Inv.
